@@ -169,6 +169,10 @@ def run(prog: Program, col: Collector, tier: str, refs: Optional[Refs] = None, c
     col.rule("R16.11", "a candidate without parameters is compared as the container of Any (accepted only by patterns whose parameter is Any)", floor=2)
     _bare_candidate(prog, col, refs, cat)
 
+    # ---------------------------------------------------------------- R16.12 per-class dispatch state
+    col.rule("R16.12", "metaclasses give every class its own tables and pass registered patterns down the whole MRO", floor=3)
+    _per_class_state(prog, col, refs, cat)
+
     # ---------------------------------------------------------------- R16.9 canonical parameters
     col.rule("R16.9", "type parameters are canonicalised (object -> Any) before they are stored or compared", floor=2)
     _canonical_parameters(prog, col, refs)
@@ -926,3 +930,63 @@ def _bare_candidate(prog: Program, col: Collector, refs: Refs, cat: Catalogue):
                     break
     if n < 2:
         raise AnalysisError(f"only {n} bare-candidate branch(es) found in the per-origin handlers (anchors: _subclasscheck_tuple, _subclasscheck_frozenset)")
+
+
+# ---------------------------------------------------------------------- R16.12
+def _per_class_state(prog: Program, col: Collector, refs: Refs, cat: Catalogue):
+    """(a) A table a metaclass creates for each class (`cls._type_cache = WeakValueDictionary()`, `cls._instance_cache = ...`) must be
+    created for the class itself: guarding the creation with hasattr / getattr, which also see inherited attributes, makes every
+    subclass share its base's table (Align[X] and Subs[X] become one class, whichever is made first).
+    (b) A metaclass that resets a per-class list of registered patterns and then copies the ancestors' entries must walk the whole
+    MRO: copying from the direct bases only loses the patterns of grandparents, so which rule runs depends on where in the
+    hierarchy (and when) an op class was created."""
+    n = 0
+    for c in prog.classes.values():
+        if not (any(b in ("type", "builtins.type") or b.endswith("Meta") for b in c.bases) or c.name.endswith("Meta")):
+            continue
+        init = c.methods.get("__init__")
+        if init is None or not init.positional:
+            continue
+        clsn = init.positional[0]
+        own_lists = set()
+        for st in walk_no_nested(init.node):
+            if not (isinstance(st, ast.Assign) and len(st.targets) == 1):
+                continue
+            t = st.targets[0]
+            if not (isinstance(t, ast.Attribute) and isinstance(t.value, ast.Name) and t.value.id == clsn):
+                continue
+            v = st.value
+            container = isinstance(v, (ast.Dict, ast.List, ast.Set)) or (isinstance(v, ast.Call) and not v.args and (
+                (refs.resolve(v.func) or norm(v.func)).rsplit(".", 1)[-1] in ("WeakValueDictionary", "WeakKeyDictionary", "dict", "list", "set", "OrderedDict", "defaultdict")))
+            if not container:
+                continue
+            n += 1
+            if isinstance(v, ast.List) or (isinstance(v, ast.Call) and norm(v.func).endswith("list")):
+                own_lists.add(t.attr)
+            guards = [a for a in init.module.ancestors(st) if isinstance(a, ast.If) and init.module.enclosing_function(a) is init.node]
+            inherited_test = None
+            for g in guards:
+                for x in ast.walk(g.test):
+                    if isinstance(x, ast.Call) and isinstance(x.func, ast.Name) and x.func.id in ("hasattr", "getattr") and len(x.args) >= 2 \
+                            and norm(x.args[0]) == clsn and isinstance(x.args[1], ast.Constant) and x.args[1].value == t.attr:
+                        inherited_test = x
+            col.check(inherited_test is None, f"{init.fq}::{clsn}.{t.attr}", f"every class gets its own `{t.attr}`",
+                      f"`{clsn}.{t.attr}` is created only when `{norm(inherited_test) if inherited_test else ''}` fails, and that test also sees the attribute inherited from a base class: "
+                      "subclasses share the base's table instead of getting their own", init.loc(st))
+        # (b)
+        for lp in [x for x in walk_no_nested(init.node) if isinstance(x, ast.For) and isinstance(x.target, ast.Name)]:
+            reads = [x for x in ast.walk(lp) if (isinstance(x, ast.Call) and isinstance(x.func, ast.Name) and x.func.id == "getattr" and len(x.args) >= 2
+                                                   and norm(x.args[0]) == lp.target.id and isinstance(x.args[1], ast.Constant) and x.args[1].value in own_lists)
+                     or (isinstance(x, ast.Attribute) and isinstance(x.value, ast.Name) and x.value.id == lp.target.id and x.attr in own_lists)]
+            if not reads:
+                continue
+            n += 1
+            it = lp.iter
+            while isinstance(it, ast.Call) and isinstance(it.func, ast.Name) and it.func.id in ("reversed", "list", "tuple") and len(it.args) == 1:
+                it = it.args[0]
+            whole = (isinstance(it, ast.Call) and ((refs.resolve(it.func) or "") == "inspect.getmro" or (isinstance(it.func, ast.Attribute) and it.func.attr == "mro"))) \
+                or (isinstance(it, ast.Attribute) and it.attr == "__mro__")
+            col.check(whole, f"{init.fq}::for {lp.target.id} in {norm(lp.iter)}", "inherited patterns are collected from the whole MRO",
+                      f"the ancestors' registered patterns are copied from `{norm(lp.iter)}` only; each class keeps only its own entries, so patterns registered with a grandparent "
+                      "class are lost for classes created later (the default rule then runs although a more specific registered pattern matches)", init.loc(lp))
+    col.cur.analysed["metaclass_state_sites"] = n
